@@ -2248,6 +2248,18 @@ def _eval_int(fn, nid, env):
         return int(n['cv'])
     if k == 'var' and n.get('d') in env:
         return env[n['d']]
+    if k == 'var' and n.get('vk') == 'local':
+        # a named sub-expression: a local with exactly one definition, its initialiser
+        dn, dv = decl_of(fn, n['d'])
+        if dv is not None and isinstance(dv.get('init'), int) and not any(w[1] == ('var', n['d']) for w in writes(fn)) \
+                and not address_taken(fn, ('var', n['d'])):
+            v = _eval_int(fn, dv['init'], env)
+            t = (dv.get('tC') or '').replace('const ', '')
+            if t == 'unsigned int':
+                v &= 0xffffffff
+            elif t == 'unsigned char':
+                v &= 0xff
+            return v
     if k == 'binop' and n.get('op') in ('>>', '&', '<<', '|', '+', '-', '%', '/'):
         a, b = _eval_int(fn, n['lhs'], env), _eval_int(fn, n['rhs'], env)
         return {'>>': lambda: a >> b, '&': lambda: a & b, '<<': lambda: (a << b) & 0xffffffff, '|': lambda: a | b, '+': lambda: a + b,
@@ -2283,8 +2295,16 @@ def hex_rules(fb, R):
             rng = [v for n in fn.all_nodes() if n.get('k') == 'decl' for v in n['vars'] if v['name'].startswith('__range')]
             if not rng or local_or_param(fn, rng[0].get('init')) != fn.params[0]['d']:
                 msg = 'the loop does not run over the parameter'
-            elem = [v for n in fn.all_nodes() if n.get('k') == 'decl' and fn.in_range(n['id'], fn.loops[0]['b'], fn.loops[0]['e']) for v in n['vars']
-                    if not v['name'].startswith('__')]
+            # the loop element: the variable initialised from *<the range-for iterator>
+            begins = {v['d'] for n in fn.all_nodes() if n.get('k') == 'decl' for v in n['vars'] if v['name'].startswith('__begin')}
+            elem = []
+            for n in fn.all_nodes():
+                if n.get('k') == 'decl' and fn.in_range(n['id'], fn.loops[0]['b'], fn.loops[0]['e']):
+                    for v in n['vars']:
+                        i = pn(fn, v.get('init')) if isinstance(v.get('init'), int) else None
+                        if i is not None and ((i.get('k') == 'unop' and i.get('op') == '*') or (i.get('k') == 'call' and i.get('op') == '*')) \
+                                and local_or_param(fn, i.get('sub', i.get('recv'))) in begins:
+                            elem.append(v)
             if msg is None and len(elem) != 1:
                 msg = 'cannot identify the loop element'
             if msg is None:
